@@ -219,9 +219,16 @@ func genCase(t *rapid.T) Case {
 		}
 		c.Threads = append(c.Threads, s)
 	}
-	for i, n := 0, rapid.IntRange(0, 12).Draw(t, "segments"); i < n; i++ {
+	// consecutive segments name different threads, so every segment is a wish to switch
+	prev := -1
+	for i, n := 0, rapid.IntRange(0, 14).Draw(t, "segments"); i < n; i++ {
 		l, _ := strconv.Atoi(pickW(t, "seg.n", segLens))
-		c.Schedule = append(c.Schedule, Seg{T: rapid.IntRange(0, nw+nr-1).Draw(t, "seg.t"), N: l})
+		th := rapid.IntRange(0, nw+nr-1).Draw(t, "seg.t")
+		if th == prev {
+			th = (th + 1) % (nw + nr)
+		}
+		prev = th
+		c.Schedule = append(c.Schedule, Seg{T: th, N: l})
 	}
 	return c
 }
@@ -397,7 +404,9 @@ func claimSlot(slot string) string { return "claims/" + slot }
 func claimTmp(slot string, tid, op int) string {
 	return fmt.Sprintf("claims/%s.t%do%d", slot, tid, op)
 }
-func claimData(tid, op int) []byte { return []byte(fmt.Sprintf("claimed by thread %d operation %d", tid, op)) }
+func claimData(tid, op int) []byte {
+	return []byte(fmt.Sprintf("claimed by thread %d operation %d", tid, op))
+}
 
 // claim is the back-end level operation: under the exclusive lock, write a private file and move
 // it to the slot with RenameNX. Exactly the first claimant of a slot may succeed.
@@ -473,10 +482,7 @@ func Execute(c Case) *Run {
 			}
 		}
 	})
-	if c.Backend == "mem" {
-		// Close() of a handle closes its back end; harmless for the in-memory one
-	}
-	setupFx.Close()
+	setupFx.Close() // closes its back end too: its own DirectoryBackend, or a no-op for the in-memory one
 	if len(setupVs) > 0 {
 		run.Discard = "setup panicked (not this property's subject): " + setupVs[0].Msg
 		return run
@@ -1242,7 +1248,7 @@ func Check(c Case) (hx.Vs, *Run) {
 
 // ---- tests --------------------------------------------------------------------------------------
 
-const schedRule = "2-3 writer scripts (1-3 operations from generate/rotate, destroy current, destroy rotated by index, import, import with overwrite, read current, read all, list, back-end claim via RenameNX) and 0-2 reader scripts over 6 key kinds x 2 ids, ~2/3 of the operations on one focus ring (new in a third of the cases), separate key store handles on one back end (in-memory 88 %, directory with one DirectoryBackend/lock descriptor per handle 12 %); schedule = run-length encoded list of thread choices at back-end-call granularity, drawn from rapid; modelled store lock. Non-trivial = two writers' back-end calls interleave on the same ring."
+const schedRule = "2-3 writer scripts (1-3 operations from generate/rotate, generate at key-ring level with retries, destroy current, destroy rotated by index, import, import with overwrite, read current, read all, list, back-end claim via RenameNX) and 0-2 reader scripts over 6 key kinds x 2 ids, ~2/3 of the operations on one focus ring (new in a third of the cases), separate key store handles on one back end (in-memory 88 %, directory with one DirectoryBackend/lock descriptor per handle 12 %); schedule = run-length encoded list of thread choices at back-end-call granularity, drawn from rapid (consecutive segments name different threads; a segment whose thread waits for the store lock stays pending until it can run); modelled store lock. Non-trivial = two writers' back-end calls interleave on the same ring."
 
 func TestSchedules(t *testing.T) {
 	R.Rule("TestSchedules", schedRule)
